@@ -422,6 +422,54 @@ def gen_exhaustive(maxlen_data, sync):
                             yield case
 
 
+STRADDLE_DELIMS = [b'|##', b'\r\n--', b'abca', b'aaa', b'--b-']
+
+
+def gen_straddle(sync, quick):
+    """Systematic block for delimiters of length 3 and 4 (incl. self-overlapping ones): the delimiter
+    is split across a source-chunk border after s = 1..len-1 bytes; a pre-consumption read leaves
+    u = 0..len+1 unread bytes buffered before the delimited operation (u < s: the cursor stands inside
+    the delimiter); read_until with the size cap landing before / at / inside / after the delimiter and
+    without a cap, consume on/off; pipe_until; delimit + child reads + pop; then a follow-up read.
+    Reader chunk size and source chunking are varied independently."""
+    for d in STRADDLE_DELIMS:
+        n = len(d)
+        heads = [b'', b'12345', d[:1], b'12' + d[:n - 1]]
+        for s in range(1, n):
+            for hi, head in enumerate(heads):
+                l1 = len(head) + s
+                tail = [b'payload', d[1:] + b'x' + d][(s + hi) % 2]
+                data = head + d + tail
+                for u in range(0, n + 2):
+                    p = l1 - u
+                    if p < 0:
+                        continue
+                    dist = max(0, len(head) - p)          # bytes between the cursor and the delimiter
+                    sizes = sorted({None, max(dist - 1, 0), dist, dist + 1, dist + n, dist + n + 1},
+                                   key=lambda x: -1 if x is None else x)
+                    ops = [[('op', ('read_until', d, z, c))] for z in sizes for c in (False, True)]
+                    ops += [[('op', ('pipe_until', d, c))] for c in (False, True)]
+                    ops += [[('delimit', d), ('op', ('read', None)), ('pop',)],
+                            [('delimit', d), ('op', ('read', 1)), ('op', ('peek', 2)), ('pop',)]]
+                    for cs in sorted({n, max(n, l1), 8}):
+                        for style in (0, 1, 2):
+                            for mid in ops:
+                                hist = ([('op', ('read', p))] if p else []) + mid + [('op', ('read', 3))]
+                                case = {'data': data, 'cs': cs, 'hist': hist}
+                                if sync:
+                                    case['maxlen'] = len(data)
+                                    case['sched'] = [[], [0] * (len(data) + 3), [l1 - 1] if l1 else []][style]
+                                else:
+                                    rest = data[l1:]
+                                    case['chunks'] = [
+                                        [data[:l1], rest],
+                                        [data[:l1]] + [rest[i:i + 1] for i in range(len(rest))],
+                                        [data[:l1], b'', rest[:2], rest[2:]],
+                                    ][style]
+                                    case['chunks'] = [c for c in case['chunks'] if c or style == 2]
+                                yield case
+
+
 # ---------------------------------------------------------------- checking
 
 
@@ -570,6 +618,10 @@ def main(ctx):
     ctx.cov['exhaustive_block'] = ('all data of length <= %d over {a,CR,LF,-} x chunk size 1..3 x every single '
                                    'operation of a fixed list (sizes None/0/1/2/4, 5 delimiters, +-consume) x 4 prefix '
                                    'operations x 3 source chunkings, both readers' % ex_len)
+    ctx.cov['straddle_block'] = ('delimiters of length 3 and 4 (%s) split across a chunk border after 1..len-1 bytes x '
+                                 '0..len+1 unread buffered bytes x size caps before/at/inside/after the delimiter x consume x '
+                                 'pipe_until / delimit+pop x 3 reader chunk sizes x 3 source chunkings, both readers%s'
+                                 % (', '.join(map(repr, STRADDLE_DELIMS)), ''))
     for sync in (True, False):
         batch = []
         for case in gen_exhaustive(ex_len, sync):
@@ -578,6 +630,7 @@ def main(ctx):
                 run_cases(ctx, mods, model, batch, sync, 'exhaustive')
                 batch = []
         run_cases(ctx, mods, model, batch, sync, 'exhaustive')
+        run_cases(ctx, mods, model, list(gen_straddle(sync, quick)), sync, 'straddle')
         run_cases(ctx, mods, model, [gen_small(ctx.rng, sync) for _ in range(n_small)], sync, 'small')
         run_cases(ctx, mods, model, [gen_long(ctx.rng, sync, False) for _ in range(n_long)], sync, 'long')
         run_cases(ctx, mods, model, [gen_long(ctx.rng, sync, True) for _ in range(n_big)], sync, 'big')
